@@ -1,19 +1,25 @@
 """C09 — Light-player answers do not depend on earlier seeks."""
 import itertools
-from vlib.gen_lights import program, timestamps
+from vlib.gen_lights import program, timestamps, varint, LOOP_BEGIN, LOOP_END, SET_GRAY, SET_BLACK, SET_WHITE, SET_PYRO, NOP, END
 from vlib.skyb import hx
 
 PID = "C09"
-LEAN_MODULE = "Sb.Properties.C09"
+LEAN_MODULE = "Sb.Properties.C09History"
 THEOREMS = [
     "Sb.C09.rewind_resets", "Sb.C09.fresh_is_rewound", "Sb.C09.seek_backwards_rewinds", "Sb.C09.seek_current",
     "Sb.C02.ended_held", "Sb.C02.loopBegin_depth", "Sb.C02.loopEnd_depth",
+    "Sb.C09.answers_history_free", "Sb.C09.reachable_inv", "Sb.C09.budget_irrelevant", "Sb.C09.next_event_sound",
+    "Sb.C09.sample_short", "Sb.C09.sample_not_instant_400",
+    "Sb.Proofs.Light.step_sim", "Sb.Proofs.Light.execCommand_sim", "Sb.Proofs.Light.execCommand_post", "Sb.Proofs.Light.wake_step",
+    "Sb.Proofs.Light.reset_step", "Sb.Proofs.Light.interior_step", "Sb.Proofs.Light.dead_step", "Sb.Proofs.Light.chain_good",
+    "Sb.Proofs.Light.seek_inv", "Sb.Proofs.Light.inv_unique",
 ]
 RULE = ("programs as in C02; one player per case driven through a history of seeks: every ordering of 3 (quick) / 4 (thorough) probe "
         "timestamps with each timestamp queried twice in a row (repeats at event starts exercise the zero-duration latitude), mixed "
         "query kinds, plus random walks of 60 (quick) / 2000 (thorough) seeks with back-jumps; every answer is compared with a fresh "
         "player's by the harness and both with the model; a difference is accepted only at an instant where the fresh player still has "
-        "zero-duration commands pending (fresh next == t). Non-trivial: history of at least 3 seeks with a back-jump.")
+        "zero-duration commands pending (fresh next == t). Nested loops of short commands make single seeks cross 10^4..10^5 executed "
+        "commands, compared with the same instants reached in hops. Non-trivial: history of at least 3 seeks with a back-jump.")
 ASSUMPTIONS = ["latitude at command start instants as stated in the property"]
 
 
@@ -42,4 +48,17 @@ def generate(rng, tier):
             t = rng.choice(ts) if rng.random() < 0.8 else rng.randint(0, max(ts) + 1000)
             walk.append(rng.choice("csy") + str(min(t, (1 << 24) - 1)))
         out.append((f"lightq {hx(p)} " + " ".join(walk), True))
+    # one seek across tens of thousands of commands (nested loops of short and zero-duration commands) against the same
+    # instants reached in hops and after back-jumps: "skipping far ahead never changes later answers"
+    for i in range(5 if thorough else 2):
+        inner = rng.choice([40, 50, 64])
+        outer = rng.choice([120, 200, 255])
+        body = bytes([SET_GRAY, rng.randint(1, 255), 1, NOP, SET_BLACK, 1])
+        p = (bytes([LOOP_BEGIN, outer, LOOP_BEGIN, inner]) + body + bytes([LOOP_END, LOOP_END, SET_PYRO, 0x81, SET_WHITE])
+             + varint(5000) + bytes([END]))
+        total = outer * inner * 40
+        far = total + 7
+        hops = [f"c{total * j // 6 + 3}" for j in range(1, 6)]
+        qs = [f"c{far}", f"y{far}", "c13", f"y{far + 100}", f"s{total // 2}"] + hops + [f"c{far}", f"y{far}", "c13", f"c{total - 1}", f"c{far + 50000}"]
+        out.append((f"lightq {hx(p)} " + " ".join(qs), True))
     return out
